@@ -372,6 +372,23 @@ def _part_c(job):
             v('equity_series_length', f'{len(samples)} samples for {n_min} simulated minutes, expected {want}')
         if samples and not close(samples[0], cfg['starting_balance']):
             v('equity_series_does_not_start_at_starting_balance', f'{samples[0]} vs {cfg["starting_balance"]}')
+        if len(samples) >= 2:
+            # ... and it ends at the final portfolio value: the shadow account after EVERY event of the session (forced close
+            # of open positions and its fee included), marked at the last close
+            i = n_min - 1
+            if spot:
+                eq = float(mdl.quote)
+                eq += sum(float(F(models.D(o[3])) * F(o[4])) for o in mdl.resting.values() if o[1] == 'buy')
+                eq += sum(float(mdl.base[s]) * closes[s][i] for s in syms)
+            else:
+                eq = float(mdl.wallet)
+                for s in syms:
+                    if mdl.qty[s] != 0:
+                        eq += float((F(float(closes[s][i])) - mdl.entry[s]) * F(mdl.qty[s]))
+            cnt['C_final_value_checks'] = 1
+            if not close(samples[-1], eq, 1e-7):
+                v('equity_series_does_not_end_at_final_portfolio_value',
+                  f'last sample {samples[-1]}, account equity after the last event of the session {eq}')
     sig = repr(('C', spot, job['nsym'], job['fast'], bool(job.get('swap')), len(samples)))
     res = {'viol': _dedup(viol), 'cnt': cnt, 'sigs': [sig] if len(samples) >= 3 else []}
     if job['i'] < 2:
